@@ -265,7 +265,7 @@ def _locate(labels, x, method):
     return best
 
 
-def c19_iteragg(L, labels, n, begin, end, method, which, dim, lead=True):
+def c19_iteragg(L, labels, n, begin, end, method, which, dim, lead=True, old_labels=None):
     import xarray as xr
     import pandas as pd
     import hdc.algo  # noqa
@@ -278,9 +278,17 @@ def c19_iteragg(L, labels, n, begin, end, method, which, dim, lead=True):
     else:
         conv = lambda k: int(k)  # noqa: E731
     coords = [conv(k) for k in labels]
-    da = xr.DataArray(data, dims=(dim, "y", "x"), coords={dim: coords})
-    if not lead:
-        da = da.transpose("y", "x", dim)
+    if old_labels:
+        # the history of the candidate: the same object aggregated once under its old labels, then relabelled in place
+        da = xr.DataArray(data, dims=(dim, "y", "x"), coords={dim: [conv(k) for k in old_labels]})
+        if not lead:
+            da = da.transpose("y", "x", dim)
+        list(getattr(da.hdc.iteragg, which)(dim=dim))
+        da[dim] = coords
+    else:
+        da = xr.DataArray(data, dims=(dim, "y", "x"), coords={dim: coords})
+        if not lead:
+            da = da.transpose("y", "x", dim)
     kw = {"n": n, "dim": dim, "method": method}
     if begin is not None:
         kw["begin"] = conv(begin)
